@@ -922,11 +922,11 @@ func (c *Case) genStruct(t *rapid.T, depth int, label string) *Node {
 			f.GoName = "EmbA"
 			anonymous = true
 			if rapid.Bool().Draw(t, fl+".inl") {
-				f.Inlined = true
+				f.Inlined = true // a key on an inlined field is legal: the map form then nests the struct under that key
 			} else {
 				f.Embedded = true
+				key = ""
 			}
-			key = ""
 		case 16:
 			f.N = leaf(KTime, tTime, "")
 		default:
